@@ -740,6 +740,16 @@ pub fn cmd_long(out: &str, _seed: u64, thorough: bool) {
             }
         }
     }
+    // every wrap width up to 300 (and around 2^9, 2^10) with a sequence of exactly w, 2 w and 2 w + 1 bytes: a threshold inside
+    // a writer (a stack buffer, a fast path for short lines) lies at some width no hand-picked list contains
+    for w in (1usize..=300).chain([511, 512, 513, 1023, 1024, 1025]) {
+        for len in [w, 2 * w, 2 * w + 1] {
+            for how in ["write_wrap", "owned_wrap", "iter"] {
+                writeln!(f, "{}", guarded(format!("write {} len={} w={}", how, len, w), move || long_write(len, w, how, 0))).unwrap();
+                cases += 1;
+            }
+        }
+    }
     // unwrapped writing from uneven chunks; header lines of 254..257 and around 65 536 bytes through every entry point
     writeln!(f, "{}", guarded("write seq_iter_uneven".into(), move || long_write(70000, 0, "seq_iter_uneven", 0))).unwrap();
     cases += 1;
